@@ -23,7 +23,51 @@ ALLOWED = {"cm_colors_quick_report.html", "cm_colors_bulk_report.html"}
 
 
 def shards(tier, seed):
-    return [{"kind": "io", "seed": seed, "idx": i, "n": SIZES[tier] // 16} for i in range(16)]
+    return [{"kind": "io", "seed": seed, "idx": i, "n": SIZES[tier] // 16} for i in range(16)] + \
+           [{"kind": "fresh", "seed": seed, "idx": i, "n": 3 if tier == "quick" else 20} for i in range(4)]
+
+
+FRESH_SCRIPT = """
+import sys
+sys.path.insert(0, %r)
+from cm_colors import ColorPair, Color, make_readable_bulk
+cases = %r
+for text, bg, large, mode, vr in cases:
+    p = ColorPair(text, bg, large_text=large)
+    p.is_valid, p.errors, p.is_readable
+    p.make_readable(mode=mode, very_readable=vr)
+make_readable_bulk([(c[0], c[1], c[2]) for c in cases], mode=1)
+Color("#abc").to_hex()
+"""
+
+
+def fresh_default_path(shard, rec):
+    """The very first calls of a fresh interpreter (lazy imports and compilation included, no cached bytecode for the tree
+    under test): nothing on stdout / stderr, nothing created in the working directory."""
+    import subprocess
+    import sys
+    import tempfile
+    from cmv import env
+    rnd = G.rng("c17fresh", shard["seed"], shard["idx"])
+    for k in range(shard["n"]):
+        cases = []
+        for cls, t, b in G.pair_classes(rnd, 5):
+            tk, tsp = rnd.choice(SP.available(tuple(t), ["hex6", "rgb", "hsl", "tuple", "keyword", "hex3"]))
+            cases.append((tsp, tuple(b), rnd.random() < 0.4, rnd.randrange(3), rnd.random() < 0.5))
+        cases.append(("rgba(0, 0, 0, 0.5)", "#123456", False, 2, True))
+        d = tempfile.mkdtemp(prefix="c17fresh-", dir=os.environ.get("CMV_SCRATCH"))
+        e = dict(os.environ)
+        e.update({"PYTHONDONTWRITEBYTECODE": "1", "PYTHONWARNINGS": "default"})
+        e.pop("PYTHONPATH", None)
+        p = subprocess.run([sys.executable, "-X", "pycache_prefix=" + os.path.join(d, ".pyc-elsewhere"), "-c", FRESH_SCRIPT % (env.SRC, cases)], cwd=d, env=e,
+                           stdout=subprocess.PIPE, stderr=subprocess.PIPE, timeout=600)
+        rec.ev()
+        rec.count("fresh_interpreter_windows")
+        left = [n for n in os.listdir(d) if n != ".pyc-elsewhere"]
+        if p.returncode != 0 or p.stdout or p.stderr or left:
+            rec.violation(f"fresh interpreter, default path: exit {p.returncode}, stdout {p.stdout[:160]!r}, stderr {p.stderr[-300:]!r}, files {left[:4]}",
+                          {"lenient": repr(cases[0][0]), "bg": repr(cases[0][1]), "fresh": True})
+        rec.nontrivial(("fresh", shard["idx"], k))
 
 
 def file_events_ok(w, cwd, allowed):
@@ -43,6 +87,8 @@ def file_events_ok(w, cwd, allowed):
 
 
 def work(shard, rec):
+    if shard["kind"] == "fresh":
+        return fresh_default_path(shard, rec)
     from cmv.lib import Lib
     lib = Lib()
     base = os.path.join(os.environ.get("CMV_SCRATCH", "/tmp"), f"c17-{shard['idx']}")
@@ -206,6 +252,39 @@ def lenient_default_path(rec, lib, scratch, rnd):
             rec.count("lenient_or_invalid_windows")
             if not w.silent():
                 rec.violation(f"default path not silent for leniently accepted / invalid input text={text!r} bg={back!r}: {w.describe()}", case)
+    # translucent text over a background that does not parse (and the other way round)
+    for k, x in enumerate(INVALID):
+        for t in ("rgba(0, 0, 0, 0.5)", (10, 20, 30, 0.4), "hsla(120, 50%, 25%, 0.3)", "rgb(0 0 0 / 0.5)"):
+            try:
+                with IOWindow(scratch) as w:
+                    p = lib.ColorPair(t, x)
+                    _ = (p.is_valid, p.errors, p.is_readable, p.make_readable())
+                    lib.make_readable_bulk([(t, x), (x, t, True)])
+            except Exception:
+                rec.count("skipped:invalid input raised (C14)")
+                continue
+            rec.count("default_windows")
+            rec.count("lenient_or_invalid_windows")
+            if not w.silent():
+                rec.violation(f"default path not silent for translucent text {t!r} over unparseable background {x!r}: {w.describe()}", {"lenient": repr(t), "bg": repr(x)})
+    # gamut-surface text just below the very_readable minimum (the lightness and the chroma search disagree there)
+    for k in range(40):
+        g = G.gamut_surface(rnd, mn=rnd.choice([4.5, 7.0]))
+        if not g:
+            continue
+        large = g and k % 2 == 0
+        try:
+            with IOWindow(scratch) as w:
+                for mode in (0, 1, 2):
+                    lib.ColorPair(g[0], g[1], large_text=large).make_readable(mode=mode, very_readable=True)
+                    lib.ColorPair(g[0], g[1], large_text=large).make_readable(mode=mode)
+        except Exception as e:
+            rec.violation(f"default path raised {type(e).__name__}: {e} for {g}", {"lenient": repr(g[0]), "bg": repr(g[1])})
+            continue
+        rec.count("default_windows")
+        rec.count("gamut_surface_windows")
+        if not w.silent():
+            rec.violation(f"default path not silent for text={g[0]} bg={g[1]} large={large}: {w.describe()}", {"lenient": repr(g[0]), "bg": repr(g[1])})
     rec.nontrivial(("lenient", len(LENIENT), len(INVALID)))
 
 
